@@ -41,13 +41,24 @@ DECL = ('parameters("A", a=ScalarParam(0.5, unit="mV", description="par a"), big
         'expressions("B")\nib = b*y - ia # nA\ndy_dt = ib/b\ndz_dt = -z\n')
 
 
+IMPORTED = ["function-positions", "small-literals", "conditionals", "operators", "nested-same-names"]
+
+
 def tasks(tier, seed):
     P = families.pack(SAVE_EXPRS, "SAVE", per=3)
     P.append({"family": "SAVE", "id": text_id(DECL), "text": DECL, "meta": {}})
     V = families.value_programs(tier, seed)
     P += families.select(V, 70 if tier == "quick" else 1500, seed)
     P += families.corpus(["lorentz.ode", "fitzhughnagumo.ode"] if tier == "quick" else None)
-    return [dict(p, opts={}) for p in P] + witness_tasks(PROP)
+    out = [dict(p, opts={}) for p in P]
+    # models imported from Myokit: the imported ODE cannot be generated from before it is saved (its intermediates have no
+    # value), so the reference for "save + reload preserves the model" is the Myokit expression tree that was imported
+    from . import c15
+    names = IMPORTED if tier == "quick" else list(c15.MODELS)
+    for name in names:
+        out.append({"family": "IMPORT", "id": name, "text": c15.build(name),
+                    "opts": {"kind": "mmt-text", "protocol": name in c15.PROTOCOL_MODELS}})
+    return out + witness_tasks(PROP)
 
 
 def decl_info(m: refsem.Model, ctx):
@@ -64,6 +75,9 @@ def decl_info(m: refsem.Model, ctx):
 
 
 def work(task):
+    if task["family"] == "IMPORT":
+        from . import c15
+        return c15.work(task, prop=PROP, back=False)
     prog = Prog(PROP, task, timeout_ms=10000 if task["family"] != "CORPUS" else 20000)
     m0, ode0 = checks.load_all(prog, task["text"])
     if ode0 is None:
@@ -137,4 +151,6 @@ def work(task):
 
 
 def bounds(tier):
-    return {"programs": "SAVE constructs + %s of the C01 universe + corpus" % ("70" if tier == "quick" else "1500"), "inputs": "all reals"}
+    return {"programs": "SAVE constructs + %s of the C01 universe + corpus" % ("70" if tier == "quick" else "1500"), "inputs": "all reals",
+            "imported": "Myokit models %s: import -> save -> reload -> emitted rhs/init vs Myokit's expression trees (shared with C15's forward check)"
+            % ("(5 of 12)" if tier == "quick" else "(all 12 MYO models)")}
